@@ -52,6 +52,20 @@ def run(chk):
                 else: corr += 1
             if fl == "A": nontrivial.add(reqs[i])
             if " E " in o or o.split()[1] != "0": fails += (fl == "A")
+    # (d) "on a syntax failure nothing remains allocated" -- before the caller frees anything: the state-based entry points
+    #     (heap-owning members of the output structure) and the manager-taking one (the manager's books), on every rejected text
+    rejected = [f for f in mreq if mres[f].split()[1] != "0"]
+    if q: rejected = rejected[:: max(1, len(rejected) // 6000)]
+    rreq = ["parse %s %d" % (f, e) for f in rejected for e in (0, 1, 5)]
+    for fl in ("A", "W", "A_asan"):
+        rimpl = lib.run_lines(exes[fl], rreq)
+        chk.cov["evaluations"] += len(rreq); chk.cov["traces_validated_against_impl"] += len(rreq)
+        for rq, o in zip(rreq, rimpl):
+            if o.startswith("!"):
+                chk.violation("crash / sanitizer report on a rejected text: " + o[:200], {"request": rq, "input": show(rq.split()[1]), "build": fl, "impl": o})
+            elif "!resid" in o:
+                chk.violation("after a failed parse %s block(s) are still allocated (before the caller's clean-up)" % o.split("!resid=")[1].split()[0],
+                              {"request": rq, "input": show(rq.split()[1]), "entry_point": rq.split()[2], "build": fl, "impl": o})
     if corr and not chk.violations:
         chk.violation("correspondence broken: Model/Parse.v and the implementation disagree (%d cases)" % corr,
                       {"correspondence": "Model/Parse.v vs src/UriParse.c (see C01/C02 for the first disagreeing input)"}, found_input=False)
